@@ -437,7 +437,7 @@ def check_call_encoding(value, enc_text, frame_tree):
 # ------------------------------------------------------------------------------------------------
 def main():
     ck = Check(PID)
-    ck.prove(["Shapes/EnvExec.v"], "props/C05.v")
+    eg.prove_with_decls(ck, ["Shapes/EnvExec.v"], "props/C05.v")
 
     if ck.replay:
         rp = json.load(open(ck.replay))
